@@ -94,6 +94,14 @@ getStartIndex(
                     1),
                 theResult));
 
+        // A start beyond the end of the string gives the empty string.
+        // (This also keeps the conversion below within the range of
+        // size_type: converting a larger double is undefined.)
+        if (theResult >= double(theStringLength))
+        {
+            return theStringLength;
+        }
+
         return XalanDOMString::size_type(theResult);
     }
 }
@@ -178,6 +186,14 @@ getSubstringLength(
             }
             else
             {
+                // Anything reaching past the end is the rest of the string.
+                // (Converting a double beyond the range of size_type is
+                // undefined, so compare as doubles first.)
+                if (theTotal - double(theXPathStartIndex) >= double(theMaxLength))
+                {
+                    return theMaxLength;
+                }
+
                 const size_type     theSubstringLength =
                     size_type(theTotal) - theXPathStartIndex;
 
